@@ -335,10 +335,26 @@ def case_library(mon, seedval):
     mon.cls("library-internal-call", ("lib", seedval))
 
 
+def case_run(mon, a, es, e0, a2s):
+    """The same a with a run of eccentricities, then the same e with a run of
+    semi-major axes, in one process and back to back: a value kept from the
+    previous call and looked up by only one of the two arguments shows on the
+    second call of such a run."""
+    for k, e in enumerate(es):
+        case_visviva(mon, e, a)
+        if k % 2:
+            case_length(mon, e, a)
+    mon.cls("run-of-e-at-one-a", ("run", a, e0))
+    for a2 in a2s:
+        case_visviva(mon, e0, a2)
+        case_length(mon, e0, a2)
+    mon.cls("run-of-a-at-one-e", ("run2", a, e0))
+
+
 CASES = {"kepler": case_kepler, "visviva": case_visviva,
          "length": case_length, "length_switch": case_length_switch,
          "phase": case_phase, "nodes_elliptic": case_nodes_elliptic,
-         "nodes_parabolic": case_nodes_parabolic, "library": case_library}
+         "nodes_parabolic": case_nodes_parabolic, "library": case_library, "run": case_run}
 
 
 def replay(mon, kind, params):
@@ -443,6 +459,15 @@ def run(mon, spec):
                                      rng.uniform(2.3e6, 2.6e6), asc]]
         mon.begin(p[0], p[1])
         CASES[p[0]](mon, *p[1])
+    # consecutive calls that share one argument (see case_run)
+    for _ in range(max(20, spec["n_other"] // 50)):
+        a = rng.choice((1.0, 0.3, 17.8, 10.0 ** rng.uniform(-0.5, 2.0)))
+        e0 = float(min(gen_e(rng), 0.999999))
+        es = [e0 if k % 3 == 2 else float(min(gen_e(rng), 0.999999))
+              for k in range(6)]
+        a2s = [10.0 ** rng.uniform(-0.5, 2.0) for k in range(4)]
+        mon.begin("run", [a, es, e0, a2s])
+        case_run(mon, a, es, e0, a2s)
     for _ in range(spec["n_lib"]):
         sv = rng.randrange(1 << 30)
         mon.begin("library", [sv])
